@@ -57,12 +57,20 @@ CONFIG = {
         "level_text": "pad/unpad laws (padded length = 32·blocks, unpad∘pad = id for names not ending in 0, unpad never returns a name ending "
                       "in 0, injectivity), and the wire-size formula 488 + 32·blocks derived from the type-3 request codec, are Lean theorems "
                       "for all names. Tied to the Go code through hooks on padOriginName/unpadOriginName and through real "
-                      "CreateTokenRequest → Marshal → Evaluate runs whose size and served/refused verdict the model predicts.",
+                      "CreateTokenRequest → Marshal → Evaluate runs whose size and served/refused verdict the model predicts. "
+                      "In addition padOriginName and unpadOriginName are translated from tokens/type3/client.go into Lean on every run "
+                      "(the `for` loop becomes a fuel-indexed recursion), proved equal to the model's pad/unpad "
+                      "(Proofs/PaddingRefine.lean, incl. that the fuel suffices), and the clauses are restated about the translated code "
+                      "(Props/C20Gen.lean).",
         "level_note": "Trusted: Lean kernel, standard axioms, harness. HPKE ciphertext expansion (32-byte enc, 16-byte tag) is modelled as constants "
                       "and validated by the end-to-end stream; names longer than ~65000 bytes make the client's own builder panic (not a peer input).",
         "trusted_base": COMMON_TB + ["HPKE X25519/AES-128-GCM expansion constants 32+16"],
-        "assumptions": ["origin names shorter than 65279 bytes"],
-        "contradicts": "PatVerif.Props.C20",
+        "extractors": [{"name": "quicwire", "out": "Padding.lean",
+                        "args": ["tokens/type3/client.go", "Padding", "padOriginName,unpadOriginName"]}],
+        "extra_modules": ["PatVerif.Proofs.UnpadRefine", "PatVerif.Proofs.PaddingRefine", "PatVerif.Props.C20Gen"],
+        "assumptions": ["origin names shorter than 65279 bytes",
+                        "Model/GoSem.lean states Go's semantics of int %, make, index, slice and append correctly"],
+        "contradicts": "PatVerif.Props.C20, PatVerif.Props.C20Gen",
     },
     "C09": {
         "rule": "Histories of VerifyRequest / FinalizeIndex calls on a fresh real attester with real P-384 keys: alphabet of 11 calls "
